@@ -236,6 +236,11 @@ def run_trj(ctx, rng, idx):
                    np.arange(L)[:, None, None] +
                    np.arange(n_atoms)[None, :, None] * 0.01 +
                    np.arange(3)[None, None, :] * 0.001).astype(np.float32)
+            if fmt == 'h5' and i % 2 == 0:
+                # raw-float format: plant values whose sign bit / payload a
+                # value comparison cannot see (-0.0)
+                xyz = xyz.copy()
+                xyz[::2, 0, 1] = -0.0
             files.append(trajgen.write(d, 't%03d' % i, xyz, fmt=fmt))
         mode = ['kwargs', 'args', 'plain', 'frames'][int(rng.integers(0, 4))]
         stride = int(rng.integers(1, 6))
@@ -322,11 +327,19 @@ def run_trj(ctx, rng, idx):
                               'lengths %s, individually loaded %s (procs=%d, '
                               'mode %s)' % (list(L), ref_lens, procs, mode))
                 return
-            if xyz.shape != ref_xyz.shape or not np.array_equal(xyz, ref_xyz):
+            if xyz.shape != ref_xyz.shape or not np.array_equal(
+                    xyz, ref_xyz) or np.ascontiguousarray(
+                    xyz).tobytes() != np.ascontiguousarray(ref_xyz).tobytes():
                 bad = 'shape %s vs %s' % (xyz.shape, ref_xyz.shape)
                 if xyz.shape == ref_xyz.shape:
                     w = np.where((xyz != ref_xyz).any(axis=(1, 2)))[0]
                     bad = 'frames %s differ' % w[:8].tolist()
+                    if len(w) == 0:
+                        bad = 'equal as values but not bit for bit (%d ' \
+                              'elements, e.g. the sign of zero)' % int((
+                                  np.ascontiguousarray(xyz).view(np.uint32) !=
+                                  np.ascontiguousarray(ref_xyz).view(
+                                      np.uint32)).sum())
                 ctx.violation('parallel-load.content',
                               'result != concatenation in file order: %s '
                               '(procs=%d, completion order %s)' % (
